@@ -917,12 +917,150 @@ fn custom_atomic_access_grid() {
     one::<SameU32>("u32-through-AtomicU32", SameU32(0x51525354), lens);
 }
 
+/// Types whose ALIGNMENT exceeds what the library's own types have: caller-defined `ByteValued`
+/// types aligned to 16 ... 8192 bytes (beyond a page) accessed directly on a mapped region whose
+/// base is an odd multiple of the page size, and a caller-defined `AtomicInteger` that is larger and
+/// more strictly aligned than its value type. A typed / atomic reference is handed out only for an
+/// address aligned for the type REFERENCED. Runs in a forked child: handing out a misaligned
+/// reference makes rustc's debug check abort the process, which is then the observation.
+#[cfg(not(any(miri, feature = "xen")))]
+pub(crate) mod overaligned {
+    use std::sync::atomic::{AtomicU64, Ordering};
+    use vm_memory::{AtomicAccess, AtomicInteger, ByteValued};
+    macro_rules! al {
+        ($N:ident, $a:expr) => {
+            #[repr(C, align($a))]
+            #[derive(Clone, Copy)]
+            pub struct $N(pub [u8; $a]);
+            impl Default for $N {
+                fn default() -> Self {
+                    $N([0; $a])
+                }
+            }
+            // SAFETY: plain bytes, no padding (size == alignment).
+            unsafe impl ByteValued for $N {}
+        };
+    }
+    al!(A16, 16);
+    al!(A64, 64);
+    al!(A4096, 4096);
+    al!(A8192, 8192);
+    /// two atomics, 16 bytes, aligned to 16; the value is the first one
+    #[repr(C, align(16))]
+    pub struct PaddedAtomicU64(AtomicU64, AtomicU64);
+    // SAFETY: consists exclusively of std atomics.
+    unsafe impl AtomicInteger for PaddedAtomicU64 {
+        type V = u64;
+        fn new(v: u64) -> Self {
+            PaddedAtomicU64(AtomicU64::new(v), AtomicU64::new(0))
+        }
+        fn load(&self, o: Ordering) -> u64 {
+            self.0.load(o)
+        }
+        fn store(&self, v: u64, o: Ordering) {
+            self.0.store(v, o)
+        }
+    }
+    #[repr(transparent)]
+    #[derive(Clone, Copy, Debug, Default, PartialEq, Eq)]
+    pub struct ViaPadded(pub u64);
+    // SAFETY: transparent wrapper around u64.
+    unsafe impl ByteValued for ViaPadded {}
+    impl From<u64> for ViaPadded {
+        fn from(v: u64) -> Self {
+            ViaPadded(v)
+        }
+    }
+    impl From<ViaPadded> for u64 {
+        fn from(v: ViaPadded) -> u64 {
+            v.0
+        }
+    }
+    impl AtomicAccess for ViaPadded {
+        type A = PaddedAtomicU64;
+    }
+}
+
+#[cfg(not(any(miri, feature = "xen")))]
+fn overaligned_types_and_atomics() {
+    use crate::common::fork::{self, Exit};
+    use overaligned::*;
+    use std::sync::atomic::Ordering;
+    use vm_memory::{Bytes, MmapRegion, VolatileMemory};
+    let ex = fork::run(30, || {
+        let mut report = String::new();
+        let total = 256 * 1024;
+        // SAFETY: fresh private mapping of our own.
+        let p = unsafe { libc::mmap(std::ptr::null_mut(), total, libc::PROT_READ | libc::PROT_WRITE, libc::MAP_PRIVATE | libc::MAP_ANONYMOUS, -1, 0) } as usize;
+        let x = p.div_ceil(65536) * 65536;
+        for k in 0..4usize {
+            let base = x + 4096 * k;
+            let len = 6 * 4096 + 100;
+            // SAFETY: a window inside our mapping, which stays mapped until the child exits.
+            let reg = unsafe { MmapRegion::<()>::build_raw(base as *mut u8, len, libc::PROT_READ | libc::PROT_WRITE, libc::MAP_PRIVATE | libc::MAP_ANONYMOUS) }.unwrap();
+            let offs: Vec<usize> = (0..6).flat_map(|pg| [pg * 4096, pg * 4096 + 16, pg * 4096 + 64, pg * 4096 + 8]).chain([len - 16, len - 8, len]).collect();
+            macro_rules! ty {
+                ($T:ty, $tn:expr) => {
+                    for &off in &offs {
+                        let fits = off + size_of::<$T>() <= len;
+                        let want = fits && (base + off) % align_of::<$T>() == 0;
+                        // SAFETY: nothing else refers to the window; the references are not used.
+                        let r1 = unsafe { reg.aligned_as_ref::<$T>(off) }.is_ok();
+                        // SAFETY: no other reference into the window exists.
+                        let r2 = unsafe { reg.aligned_as_mut::<$T>(off) }.is_ok();
+                        let r3 = reg.get_slice(0, len).map(|s| unsafe { s.aligned_as_ref::<$T>(off) }.is_ok()).unwrap_or(false);
+                        if r1 != want || r2 != want || r3 != want {
+                            report.push_str(&format!("{} at region base%65536={:#x} offset {:#x}: address aligned+fits={} but region.aligned_as_ref ok={} region.aligned_as_mut ok={} slice.aligned_as_ref ok={}; ", $tn, base % 65536, off, want, r1, r2, r3));
+                        }
+                        // typed references without an alignment requirement still only need to fit
+                        if reg.get_ref::<$T>(off).is_ok() != fits {
+                            report.push_str(&format!("{} get_ref at offset {:#x}: ok != fits({}); ", $tn, off, fits));
+                        }
+                    }
+                };
+            }
+            ty!(A16, "align(16)");
+            ty!(A64, "align(64)");
+            ty!(A4096, "align(4096)");
+            ty!(A8192, "align(8192)");
+            ty!(u128, "u128");
+            // the over-aligned atomic: through get_atomic_ref and through store / load
+            for &off in &offs {
+                let fits = off + 16 <= len;
+                let want = fits && (base + off) % 16 == 0;
+                let g = reg.get_atomic_ref::<PaddedAtomicU64>(off).is_ok();
+                let st = reg.get_slice(0, len).map(|s| s.store(ViaPadded(7), off, Ordering::SeqCst).is_ok()).unwrap_or(false);
+                let ld = reg.get_slice(0, len).map(|s| s.load::<ViaPadded>(off, Ordering::SeqCst).is_ok()).unwrap_or(false);
+                if g != want || st != want || ld != want {
+                    report.push_str(&format!("16-byte-aligned atomic at offset {:#x}: address aligned+fits={} but get_atomic_ref ok={} store ok={} load ok={}; ", off, want, g, st, ld));
+                }
+            }
+        }
+        report.truncate(1500);
+        report.into_bytes()
+    });
+    match ex {
+        Exit::Ok(rep) if rep.is_empty() => {
+            out::key("overaligned|types-16..8192+padded-atomic|region-base-odd-page", true);
+            out::eval(4 * 27 * 6);
+        }
+        Exit::Ok(rep) => v("overaligned/reference-handed-out-for-a-misaligned-address-or-aligned-one-refused", J::s(String::from_utf8_lossy(&rep).to_string())),
+        Exit::Signal(sig) => v("overaligned/process-aborted-inside-the-library (misaligned reference created)", jobj! {"signal" => fork::signal_name(sig)}),
+        Exit::Panic(p) => v(&format!("overaligned/panic/{}", crate::common::panic_sig(&p)), J::s(p)),
+        other => out::note("C01/overaligned-child-inconclusive", J::dbg(&other)),
+    }
+}
+
 pub fn run(args: &Args) {
     let (si, _) = args.shard();
     if si == 0 {
         from_slice_grid();
         region_atomic_grid();
         custom_atomic_access_grid();
+        #[cfg(not(any(miri, feature = "xen")))]
+        if std::env::var("VMV_ARENA").as_deref() != Ok("heap") {
+            overaligned_types_and_atomics();
+        }
     }
     for case in args.cases(5000) {
         run_case(case, args);
